@@ -189,7 +189,7 @@ def run(res, tier):
                 "operation consumed or produced at least one byte / changed at least one member")
     ok, err = std.proof_stage(res, PID, gens=["charsets"])
     exe = impl()
-    runner = coq.build_runner()
+    runner = coq.build_runner("tok")
     n = 30000 if tier == "quick" else 400000
     cases = gen_cases(rng, n)
     impl_out, model_out, dis = std.corr_stage(
